@@ -226,6 +226,16 @@ class PhaseField(_Simu):
     ):
         return super().add_surfLoad(nodes, values, unknowns, problemType, description)
 
+    def add_volumeLoad(
+        self,
+        nodes: _types.IntArray,
+        values: list,
+        unknowns: list[str],
+        problemType=ProblemTypes.elastic,
+        description="",
+    ):
+        return super().add_volumeLoad(nodes, values, unknowns, problemType, description)
+
     def add_pressureLoad(
         self,
         nodes: _types.IntArray,
